@@ -1,30 +1,41 @@
 package vsched
 
-import "fmt"
+import (
+	"fmt"
+	"reflect"
+)
 
+// Chan is the controlled replacement of chan T. Created inside an exploration it is virtual
+// (state owned by the scheduler); created outside it wraps a real channel (pass-through).
 type Chan[T any] struct {
+	real chan T // pass-through mode
+
 	cap    int
 	buf    []T
 	ev     []uint64 // event hash of the send that produced each buffered message
 	closed bool
-	sh     uint64 // hash of the last send/close event on this channel
-	// rendezvous (cap 0) is modelled as: a send is enabled when a receiver is parked; keep simple:
-	// unbuffered channels are not used by bgzf; we model cap 0 as cap 1 with a flag.
-	label string
+	sh     uint64 // hash of the last send/close event on this channel (FIFO order is state)
 }
 
 func NewChan[T any](n int) *Chan[T] {
+	if S == nil {
+		return &Chan[T]{real: make(chan T, n)}
+	}
 	return &Chan[T]{cap: n}
 }
 
-func (c *Chan[T]) Name() string { return fmt.Sprintf("chan/%d[%d]", c.cap, len(c.buf)) }
+func (c *Chan[T]) virt() {
+	if c.real != nil {
+		panic("vsched: pass-through channel used under the scheduler (object created outside Run)")
+	}
+}
 
 func (c *Chan[T]) canSend() bool {
 	if c.closed || len(c.buf) < c.cap {
 		return true
 	}
 	if c.cap == 0 && len(c.buf) == 0 {
-		// rendezvous: enabled when another thread is parked receiving on c
+		// rendezvous: a send is enabled when another thread is parked receiving on c
 		for _, t := range S.threads {
 			if t.done || t == S.cur {
 				continue
@@ -43,6 +54,7 @@ func (c *Chan[T]) canSend() bool {
 	}
 	return false
 }
+
 func (c *Chan[T]) canRecv() bool { return c.closed || len(c.buf) > 0 }
 
 func (c *Chan[T]) doSend(t *Thread, v T) {
@@ -57,20 +69,32 @@ func (c *Chan[T]) doSend(t *Thread, v T) {
 func (c *Chan[T]) doRecv(t *Thread) (v T, ok bool) {
 	if len(c.buf) > 0 {
 		v = c.buf[0]
+		var zero T
+		c.buf[0] = zero
 		c.buf = c.buf[1:]
 		t.note(OpRecv, c.ev[0])
 		c.ev = c.ev[1:]
 		return v, true
 	}
-	// closed
+	if !c.closed {
+		panic("vsched: receive scheduled on empty open channel")
+	}
 	t.note(OpRecv, mix(c.sh, 0xc105ed))
 	return v, false
 }
 
 func (c *Chan[T]) Send(v T) {
-	if c == nil {
-		point(pending{kind: OpSelect}) // blocks forever
+	if S == nil {
+		if c == nil {
+			select {}
+		}
+		c.real <- v
+		return
 	}
+	if c == nil {
+		point(pending{kind: OpBlockForever})
+	}
+	c.virt()
 	t := point(pending{kind: OpSend, obj: c})
 	c.doSend(t, v)
 }
@@ -81,14 +105,27 @@ func (c *Chan[T]) Recv() T {
 }
 
 func (c *Chan[T]) Recv2() (T, bool) {
-	if c == nil {
-		point(pending{kind: OpSelect})
+	if S == nil {
+		if c == nil {
+			select {}
+		}
+		v, ok := <-c.real
+		return v, ok
 	}
+	if c == nil {
+		point(pending{kind: OpBlockForever})
+	}
+	c.virt()
 	t := point(pending{kind: OpRecv, obj: c})
 	return c.doRecv(t)
 }
 
 func (c *Chan[T]) Close() {
+	if S == nil {
+		close(c.real)
+		return
+	}
+	c.virt()
 	t := point(pending{kind: OpClose, obj: c})
 	if c.closed {
 		panic("close of closed channel")
@@ -97,44 +134,95 @@ func (c *Chan[T]) Close() {
 	c.sh = t.note(OpClose, c.sh)
 }
 
-func (c *Chan[T]) Len() int { return len(c.buf) }
+func (c *Chan[T]) Len() int {
+	if c == nil {
+		return 0
+	}
+	if c.real != nil {
+		return len(c.real)
+	}
+	return len(c.buf)
+}
+
 func (c *Chan[T]) Cap() int {
 	if c == nil {
 		return 0
 	}
+	if c.real != nil {
+		return cap(c.real)
+	}
 	return c.cap
 }
 
+func (c *Chan[T]) String() string { return fmt.Sprintf("chan(cap %d, len %d)", c.Cap(), c.Len()) }
+
 // Case describes one select case.
 type Case struct {
-	w    waitable
-	send bool
+	w     waitable
+	send  bool
 	isNil bool
+	rv    reflect.Value // pass-through: the real channel
 }
 
 func (c *Chan[T]) RecvCase() Case {
 	if c == nil {
 		return Case{isNil: true}
 	}
+	if c.real != nil {
+		return Case{rv: reflect.ValueOf(c.real)}
+	}
 	return Case{w: c}
 }
+
 func (c *Chan[T]) SendCase() Case {
 	if c == nil {
 		return Case{isNil: true}
 	}
+	if c.real != nil {
+		panic("vsched: select send case is not supported in pass-through mode")
+	}
 	return Case{w: c, send: true}
 }
 
-// Select parks until one case is ready (or default) and returns the chosen case index, -1 for default.
-// The caller then performs the operation with DoRecv/DoSend.
-func Select(hasDefault bool, cases ...Case) int {
+// Sel is the result of a Select: the index of the chosen case (-1 for default) and, in
+// pass-through mode, the value already received.
+type Sel struct {
+	I   int
+	val reflect.Value
+	ok  bool
+	pt  bool
+}
+
+// Select parks until one case is ready (or default). The caller performs the chosen
+// operation with SelRecv/SelSend.
+func Select(hasDefault bool, cases ...Case) Sel {
+	if S == nil {
+		rc := make([]reflect.SelectCase, 0, len(cases)+1)
+		idx := make([]int, 0, len(cases)+1)
+		for i, c := range cases {
+			if c.isNil {
+				continue
+			}
+			rc = append(rc, reflect.SelectCase{Dir: reflect.SelectRecv, Chan: c.rv})
+			idx = append(idx, i)
+		}
+		if hasDefault {
+			rc = append(rc, reflect.SelectCase{Dir: reflect.SelectDefault})
+			idx = append(idx, -1)
+		}
+		if len(rc) == 0 {
+			select {}
+		}
+		ch, v, ok := reflect.Select(rc)
+		return Sel{I: idx[ch], val: v, ok: ok, pt: true}
+	}
 	sc := make([]selCase, len(cases))
 	for i, c := range cases {
 		if !c.isNil {
 			sc[i] = selCase{ch: c.w, send: c.send}
 		}
 	}
-	point(pending{kind: OpSelect, cases: sc, hasDef: hasDefault})
+	t := point(pending{kind: OpSelect, cases: sc, hasDef: hasDefault})
 	var ready []int
 	for i, c := range sc {
 		if c.ch == nil {
@@ -145,14 +233,26 @@ func Select(hasDefault bool, cases ...Case) int {
 		}
 	}
 	if len(ready) == 0 {
-		cur().note(OpSelect, 0xdef)
-		return -1
+		if !hasDefault {
+			panic("vsched: select scheduled with no ready case")
+		}
+		t.note(OpSelect, 0xdef)
+		return Sel{I: -1}
 	}
-	return ready[Choose(len(ready))]
+	return Sel{I: ready[Choose(len(ready))]}
 }
 
-// SelRecv performs the receive of a chosen select case.
-func (c *Chan[T]) SelRecv() (T, bool) { return c.doRecv(cur()) }
+// SelRecv performs (or, in pass-through mode, returns the result of) the receive chosen by Select.
+func SelRecv[T any](c *Chan[T], s Sel) (T, bool) {
+	if s.pt {
+		var zero T
+		if !s.ok {
+			return zero, false
+		}
+		return s.val.Interface().(T), true
+	}
+	return c.doRecv(cur())
+}
 
-// SelSend performs the send of a chosen select case.
-func (c *Chan[T]) SelSend(v T) { c.doSend(cur(), v) }
+// SelSend performs the send chosen by Select.
+func SelSend[T any](c *Chan[T], s Sel, v T) { c.doSend(cur(), v) }
